@@ -23,7 +23,31 @@ pub enum Op {
     FrontMut,
     BackMut,
     IdxMut,
+    /// `self.clone_from(&other)`: other holds 7 fresh items (nothing consumed)
+    CloneFromLong,
+    /// `self.clone_from(&other)`: other held 7 fresh items and consumed 2 of them from the front
+    CloneFromPopped,
 }
+
+/// The alphabet of the statement plus the Clone entry points (`clone_from` reuses the destination).
+pub const OPS_EXT: [Op; 16] = [
+    Op::Push,
+    Op::PopFront,
+    Op::PopBack,
+    Op::Adv0,
+    Op::Adv1,
+    Op::Adv2,
+    Op::AdvLen,
+    Op::AdvLen1,
+    Op::AdvMax,
+    Op::Clear,
+    Op::Slide,
+    Op::FrontMut,
+    Op::BackMut,
+    Op::IdxMut,
+    Op::CloneFromLong,
+    Op::CloneFromPopped,
+];
 
 pub const OPS: [Op; 14] = [
     Op::Push,
@@ -59,10 +83,12 @@ impl Op {
             Op::FrontMut => "front_mut=",
             Op::BackMut => "back_mut=",
             Op::IdxMut => "deque[len/2]=",
+            Op::CloneFromLong => "clone_from(7 items)",
+            Op::CloneFromPopped => "clone_from(7 items, 2 consumed)",
         }
     }
     pub fn parse(s: &str) -> Option<Op> {
-        OPS.iter().copied().find(|o| o.name() == s)
+        OPS_EXT.iter().copied().find(|o| o.name() == s)
     }
 }
 
@@ -231,6 +257,20 @@ impl<C: Backing> State<C> {
                     self.d[len / 2] = v;
                     self.m[len / 2] = v;
                 }
+            }
+            Op::CloneFromLong | Op::CloneFromPopped => {
+                let items: Vec<u32> = (0..7).map(|_| self.fresh()).collect();
+                let mut other: SlidingDeque<C> = SlidingDeque::from(C::from_items(&items));
+                let mut want: VecDeque<u32> = items.iter().copied().collect();
+                if op == Op::CloneFromPopped {
+                    other.pop_front();
+                    other.pop_front();
+                    want.pop_front();
+                    want.pop_front();
+                }
+                self.d.clone_from(&other);
+                self.m = want;
+                self.pushed = true;
             }
         }
         Ok(())
@@ -401,7 +441,7 @@ pub fn closure(rep: &mut Report, cap: usize) -> HashSet<(usize, usize)> {
         }
     }
     while let Some((st, seed, path)) = frontier.pop_front() {
-        for op in OPS {
+        for op in OPS_EXT {
             if op == Op::Push && st.m.len() >= cap {
                 continue;
             }
@@ -435,12 +475,13 @@ struct Dfs<'a, C: Backing> {
     cap: usize,
     seed: usize,
     path: Vec<Op>,
+    ops: &'static [Op],
     _c: std::marker::PhantomData<C>,
 }
 
 impl<C: Backing> Dfs<'_, C> {
-    fn go(&mut self, st: &State<C>, depth_left: usize) {
-        for op in OPS {
+    fn go(&mut self, st: &State<C>, depth_left: usize, within_cap: bool) {
+        for op in self.ops.iter().copied() {
             let mut next = st.clone();
             self.path.push(op);
             self.rep.evaluations += 1;
@@ -456,8 +497,11 @@ impl<C: Backing> Dfs<'_, C> {
                     }
                     if C::SPY {
                         let shape = next.shape();
+                        // the closure bounds the logical length: only paths that stayed within the
+                        // bound all along are covered by it
+                        let within_cap = within_cap && next.m.len() <= self.cap;
                         if let Some(cl) = self.closure {
-                            if next.m.len() <= self.cap && !cl.contains(&shape) {
+                            if within_cap && !cl.contains(&shape) {
                                 machinery_failure(&format!(
                                     "abstraction unsound: DFS reached shape {:?} outside the closure via {}",
                                     shape,
@@ -476,7 +520,8 @@ impl<C: Backing> Dfs<'_, C> {
                         self.rep.sample(text);
                     }
                     if depth_left > 1 {
-                        self.go(&next, depth_left - 1);
+                        let within = within_cap && next.m.len() <= self.cap;
+                        self.go(&next, depth_left - 1, within);
                     } else {
                         self.rep
                             .outcome(hash_of(&(next.m.len(), next.m.front().copied())));
@@ -497,10 +542,11 @@ pub fn dfs<C: Backing>(
     seed: usize,
     depth: usize,
     unit_base: &mut usize,
+    ops: &'static [Op],
 ) {
     let st0: State<C> = State::new(seed);
-    for a in OPS {
-        for b in OPS {
+    for a in ops.iter().copied() {
+        for b in ops.iter().copied() {
             let unit = *unit_base;
             *unit_base += 1;
             if !ctx.owns(unit) {
@@ -509,12 +555,12 @@ pub fn dfs<C: Backing>(
             let mut st = st0.clone();
             let mut path = vec![a];
             // The two-op prefix itself is explored (and judged) by whoever owns it.
-            if b == OPS[0] {
+            if b == ops[0] {
                 rep.evaluations += 1;
                 rep.transitions += 1;
             }
             if let Err(e) = st.apply(a) {
-                if b == OPS[0] {
+                if b == ops[0] {
                     violation::<C>(rep, seed, &path, &e, Mode::CloneBeforeEachOp);
                 }
                 continue;
@@ -534,9 +580,11 @@ pub fn dfs<C: Backing>(
                     cap,
                     seed,
                     path,
+                    ops,
                     _c: std::marker::PhantomData,
                 };
-                d.go(&st, depth - 2);
+                let within = st.m.len() <= cap && seed <= cap;
+                d.go(&st, depth - 2, within);
             }
             rep.max_depth = rep.max_depth.max(depth as u64);
         }
@@ -546,8 +594,8 @@ pub fn dfs<C: Backing>(
 /// Depth-bounded enumeration of all op sequences executed on ONE object each (no clones):
 /// every history is re-executed from scratch, so the backing container's capacity follows its
 /// real growth policy.  Only the last op of each history is new, so only it is counted.
-pub fn dfs_straight<C: Backing>(ctx: &Ctx, rep: &mut Report, seed: usize, depth: usize, unit_base: &mut usize) {
-    let n = OPS.len();
+pub fn dfs_straight<C: Backing>(ctx: &Ctx, rep: &mut Report, seed: usize, depth: usize, unit_base: &mut usize, ops: &'static [Op]) {
+    let n = ops.len();
     for len in 1..=depth {
         let total = n.pow(len as u32);
         let mut idx = 0usize;
@@ -568,7 +616,7 @@ pub fn dfs_straight<C: Backing>(ctx: &Ctx, rep: &mut Report, seed: usize, depth:
                     x /= n;
                 }
                 for d in digits {
-                    path.push(OPS[d]);
+                    path.push(ops[d]);
                 }
                 rep.evaluations += 1;
                 rep.transitions += len as u64;
@@ -586,6 +634,133 @@ pub fn dfs_straight<C: Backing>(ctx: &Ctx, rep: &mut Report, seed: usize, depth:
     }
 }
 
+/// Zero-sized items: a `SlidingDeque<Vec<()>>` built from a vector of up to usize::MAX elements is
+/// legal (no memory is involved), and its cursor arithmetic runs at the top of the usize range.
+/// All op sequences to `depth` over pushes, pops, advances by 1 / half / half+1 / half+2 / MAX,
+/// slide and clear from three huge initial lengths, against a counter model.
+#[derive(Clone, Copy, Debug, PartialEq, Eq)]
+pub enum Z {
+    Push,
+    PopFront,
+    PopBack,
+    Adv1,
+    AdvHalf,
+    AdvHalf1,
+    AdvHalf2,
+    AdvMax,
+    Slide,
+    Clear,
+}
+pub const ZOPS: [Z; 10] = [Z::Push, Z::PopFront, Z::PopBack, Z::Adv1, Z::AdvHalf, Z::AdvHalf1, Z::AdvHalf2, Z::AdvMax, Z::Slide, Z::Clear];
+
+pub fn zst_run_one(start: usize, path: &[Z]) -> Result<(), String> {
+    let r = catch(|| -> Result<(), String> {
+        let mut d: SlidingDeque<Vec<()>> = SlidingDeque::from(vec![(); start]);
+        let mut len: usize = start;
+        // upper bound on the backing vector's physical length (consumed elements may still be in
+        // it): a Vec cannot hold more than usize::MAX elements, and running into that limit is
+        // resource exhaustion, not a property violation
+        let mut phys_ub: usize = start;
+        let half = start / 2;
+        for (i, op) in path.iter().enumerate() {
+            let at = |m: String| format!("step {} ({:?}): {}", i + 1, op, m);
+            match op {
+                Z::Push => {
+                    if phys_ub == usize::MAX {
+                        continue; // the backing vector may be full
+                    }
+                    d.push_back(());
+                    len += 1;
+                    phys_ub += 1;
+                }
+                Z::PopFront | Z::PopBack => {
+                    let got = if *op == Z::PopFront { d.pop_front() } else { d.pop_back() };
+                    let want = if len > 0 { Some(()) } else { None };
+                    if got != want {
+                        return Err(at(format!("returned {:?} expected {:?}", got, want)));
+                    }
+                    len -= want.is_some() as usize;
+                    if *op == Z::PopBack && want.is_some() {
+                        phys_ub -= 1;
+                    }
+                }
+                Z::Adv1 | Z::AdvHalf | Z::AdvHalf1 | Z::AdvHalf2 | Z::AdvMax => {
+                    let k = match op {
+                        Z::Adv1 => 1,
+                        Z::AdvHalf => half,
+                        Z::AdvHalf1 => half + 1,
+                        Z::AdvHalf2 => half + 2,
+                        _ => usize::MAX,
+                    };
+                    let got = d.advance(k);
+                    let want = k.min(len);
+                    if got != want {
+                        return Err(at(format!("advance returned {} expected {}", got, want)));
+                    }
+                    len -= want;
+                }
+                Z::Slide => d.slide(),
+                Z::Clear => {
+                    d.clear();
+                    len = 0;
+                    phys_ub = 0;
+                }
+            }
+            if d.len() != len || d.is_empty() != (len == 0) {
+                return Err(at(format!("len() = {} expected {}", d.len(), len)));
+            }
+        }
+        Ok(())
+    });
+    match r {
+        Ok(r) => r,
+        Err(p) => Err(format!("panic: {}", p)),
+    }
+}
+
+pub fn zst_family(ctx: &Ctx, rep: &mut Report, depth: usize, unit_base: &mut usize) {
+    let starts: [usize; 3] = [usize::MAX, usize::MAX - 1, (isize::MAX as usize) + 1];
+    let n = ZOPS.len();
+    for start in starts {
+        for len in 1..=depth {
+            let u = *unit_base;
+            *unit_base += 1;
+            if !ctx.owns(u) {
+                continue;
+            }
+            for j in 0..n.pow(len as u32) {
+                let mut x = j;
+                let mut path = vec![Z::Push; len];
+                for d in (0..len).rev() {
+                    path[d] = ZOPS[x % n];
+                    x /= n;
+                }
+                rep.evaluations += 1;
+                rep.transitions += len as u64;
+                rep.count("zst_histories", 1);
+                if let Err(e) = zst_run_one(start, &path) {
+                    if !(e.starts_with(&format!("step {} ", len)) || e.starts_with("panic")) {
+                        continue;
+                    }
+                    if e.starts_with("panic") && len > 1 && zst_run_one(start, &path[..len - 1]).is_err() {
+                        continue; // reported at the shorter history
+                    }
+                    if zst_run_one(start, &path).is_ok() {
+                        machinery_failure("C15 zero-sized violation did not reproduce");
+                    }
+                    let hist = format!("{:?}", path);
+                    rep.violation(Violation {
+                        key: format!("C15:zst:{}:{}", start, hist.replace(' ', "")),
+                        summary: format!("SlidingDeque<Vec<()>> of {} zero-sized items after {}: {}", start, hist, e),
+                        replay_text: format!("check: sliding-zst\nstart: {}\nhistory: {}\nobserved: {}\n", start, hist, e),
+                    });
+                }
+            }
+        }
+    }
+    rep.note(format!("C15: zero-sized items: SlidingDeque<Vec<()>> from vectors of usize::MAX, usize::MAX - 1 and isize::MAX + 1 elements, all sequences to depth {} over {:?} against a counter model (cursor arithmetic at the top of the usize range)", depth, ZOPS));
+}
+
 pub fn run(ctx: &Ctx) -> Report {
     let mut rep = Report::new();
     let cap = 8;
@@ -601,21 +776,32 @@ pub fn run(ctx: &Ctx) -> Report {
     let depth = ctx.tier.pick(7, 8);
     let mut unit = 0usize;
     // Fresh deque, three backings.
-    dfs::<SpyVec<u32>>(ctx, &mut rep, Some(&cl), cap, 0, depth, &mut unit);
-    dfs::<Vec<u32>>(ctx, &mut rep, None, cap, 0, depth, &mut unit);
-    dfs::<SmallVec<[u32; 2]>>(ctx, &mut rep, None, cap, 0, depth, &mut unit);
+    dfs::<SpyVec<u32>>(ctx, &mut rep, Some(&cl), cap, 0, depth, &mut unit, &OPS);
+    dfs::<Vec<u32>>(ctx, &mut rep, None, cap, 0, depth, &mut unit, &OPS);
+    dfs::<SmallVec<[u32; 2]>>(ctx, &mut rep, None, cap, 0, depth, &mut unit, &OPS);
+    // the same plus the Clone entry points (clone_from into a deque with history), one level shallower
+    dfs::<SpyVec<u32>>(ctx, &mut rep, None, cap, 0, depth - 1, &mut unit, &OPS_EXT);
+    dfs::<SmallVec<[u32; 2]>>(ctx, &mut rep, None, cap, 0, depth - 1, &mut unit, &OPS_EXT);
     // Non-initial starts: From<container> with 3 and 5 items, one level shallower.
     for seed in [3usize, 5] {
-        dfs::<SpyVec<u32>>(ctx, &mut rep, Some(&cl), cap, seed, depth - 1, &mut unit);
-        dfs::<SmallVec<[u32; 2]>>(ctx, &mut rep, None, cap, seed, depth - 1, &mut unit);
+        dfs::<SpyVec<u32>>(ctx, &mut rep, Some(&cl), cap, seed, depth - 1, &mut unit, &OPS);
+        dfs::<SmallVec<[u32; 2]>>(ctx, &mut rep, None, cap, seed, depth - 1, &mut unit, &OPS);
+        dfs::<SpyVec<u32>>(ctx, &mut rep, None, cap, seed, depth - 2, &mut unit, &OPS_EXT);
+        dfs::<SmallVec<[u32; 2]>>(ctx, &mut rep, None, cap, seed, depth - 2, &mut unit, &OPS_EXT);
     }
     // The same alphabet without clones (capacities follow the container's growth policy), one level shallower.
-    dfs_straight::<Vec<u32>>(ctx, &mut rep, 0, depth - 2, &mut unit);
-    dfs_straight::<SmallVec<[u32; 2]>>(ctx, &mut rep, 0, depth - 2, &mut unit);
-    dfs_straight::<SmallVec<[u32; 2]>>(ctx, &mut rep, 3, depth - 2, &mut unit);
+    dfs_straight::<Vec<u32>>(ctx, &mut rep, 0, depth - 2, &mut unit, &OPS);
+    dfs_straight::<SmallVec<[u32; 2]>>(ctx, &mut rep, 0, depth - 2, &mut unit, &OPS);
+    dfs_straight::<SmallVec<[u32; 2]>>(ctx, &mut rep, 3, depth - 2, &mut unit, &OPS);
+    // clone_from into a destination with its own history needs the straight explorer (a copied
+    // destination has no history left if Clone compacts)
+    dfs_straight::<Vec<u32>>(ctx, &mut rep, 5, depth - 3, &mut unit, &OPS_EXT);
+    dfs_straight::<SmallVec<[u32; 2]>>(ctx, &mut rep, 5, depth - 3, &mut unit, &OPS_EXT);
+    dfs_straight::<Vec<u32>>(ctx, &mut rep, 0, depth - 2, &mut unit, &OPS_EXT);
+    zst_family(ctx, &mut rep, ctx.tier.pick(4, 5), &mut unit);
     rep.note(format!("C15: the cloning explorers copy the deque before every op (exactly-fitting capacity, so every push meets a full container); the straight explorer re-executes all histories to depth {} on one object (amortised capacities)", depth - 2));
     rep.note(format!(
-        "C15: closure over (physical length, consumed prefix) with logical length <= {} reached a fix-point; DFS of all {}-op sequences completed to depth {} (fresh) / {} (From<container> with 3 and 5 items) on Vec, SmallVec<[u32;2]> and SpyVec backings; debug_assertions={}",
+        "C15: closure over (physical length, consumed prefix) with logical length <= {} reached a fix-point; DFS of all {}-op sequences completed to depth {} (fresh) / {} (From<container> with 3 and 5 items) on Vec, SmallVec<[u32;2]> and SpyVec backings, and of the 16-op alphabet with clone_from one / two levels shallower; debug_assertions={}",
         cap,
         OPS.len(),
         depth,
@@ -626,6 +812,21 @@ pub fn run(ctx: &Ctx) -> Report {
 }
 
 pub fn replay(text: &str) -> Result<String, String> {
+    if field(text, "check") == Some("sliding-zst") {
+        let start: usize = field(text, "start").and_then(|x| x.trim().parse().ok()).unwrap_or(usize::MAX);
+        let hist = field(text, "history").unwrap_or("");
+        let mut path = Vec::new();
+        for tok in hist.trim_matches(|c| c == '[' || c == ']').split(',').map(|t| t.trim()).filter(|t| !t.is_empty()) {
+            match ZOPS.iter().copied().find(|z| format!("{:?}", z) == tok) {
+                Some(z) => path.push(z),
+                None => machinery_failure("cannot parse zero-sized history"),
+            }
+        }
+        return match zst_run_one(start, &path) {
+            Err(e) => Ok(format!("{} zero-sized items, {}: {}", start, hist, e)),
+            Ok(()) => Err(format!("{} zero-sized items, {}: agrees with the counter model", start, hist)),
+        };
+    }
     let backing = field(text, "backing").unwrap_or("SpyVec");
     let hist = field(text, "history").ok_or_else(|| "no history in artefact".to_string());
     let hist = match hist {
